@@ -441,6 +441,7 @@ pub fn exch_step_1b(
     let mut rb = sm9_u256_hash1(ida, SM9_HID_EXCH);
     let mut r = SM9_POINT_MONT_P1.point_mul(&rb);
     r = r.point_add(&msk.ppube);
+    let q = r;
     let mut sk = vec![];
     loop {
         // B2: rand rB in [1, N-1]
@@ -448,8 +449,8 @@ pub fn exch_step_1b(
 
         // rb = u256_from_hex("00018B98C44BEF9F8537FB7D071B2C928B3BC65BD3D69E1EEE213564905634FE");
 
-        // B3: RB = rB * Q
-        r = r.point_mul(&rb);
+        // B3: RB = rB * Q (from Q itself also after a retry)
+        r = q.point_mul(&rb);
 
         // B4: check RA on curve; G1 = e(RA, deB), G2 = e(Ppube, P2) ^ rB, G3 = G1 ^ rB
         if !ra.is_on_curve() {
